@@ -83,11 +83,12 @@ def flattenSecs : List Sec → List UInt32
 /-- `marshalDocSections` -/
 def marshalDocSections (secs : List Sec) : Bytes := toSizedDeltas (flattenSecs secs)
 
-/-- the inlined pair loop of `unmarshalDocSections`; a dangling single value `d` decodes as
-    `Start = last+d`, `End = Start` (Go reads `Uvarint([]) = (0, 0)`). -/
+/-- the inlined pair loop of `unmarshalDocSections`; a dangling single value is dropped: since the fix
+    "varint delta decoders spin, panic or over-allocate on corrupt data" the loop breaks when the second
+    `Uvarint` of a pair reports `m <= 0` (before it, Go read `Uvarint([]) = (0, 0)` and emitted `Start = End`). -/
 def unpair : List Nat → UInt32 → List Sec
   | [], _ => []
-  | [d], last => [⟨last + UInt32.ofNat d, last + UInt32.ofNat d⟩]
+  | [_], _ => []
   | d :: e :: r, last =>
     let s := last + UInt32.ofNat d
     let t := s + UInt32.ofNat e
